@@ -1,6 +1,7 @@
 import ArgMapper.Props.C08b
 import ArgMapper.Proofs.RedefCallable
 import ArgMapper.Proofs.RedefCallableCE
+import ArgMapper.Proofs.RedefLowerNames
 /-!
 # C08 (continued) — the redefined function is callable
 
@@ -29,9 +30,18 @@ def withDeclared (b : Builder) (ls : List Label) (idOf : Label → Nat) : Builde
 
 /-- (added hypothesis) the names of parameters and results are lower-case, as `Named` stores them
 (`setNamed` keys the named map by `lower name`).  True of every label the model of `NewFunc` produces
-(`fieldLabel` lower-cases the name); a `FuncDesc` holds arbitrary labels. -/
+(`newFunc_lowerNames`); a `FuncDesc` holds arbitrary labels. -/
 def LowerNames (fs : List FuncDesc) : Prop :=
   ∀ f ∈ fs, ∀ l ∈ f.input.labels ++ f.output.labels, lower l.name = l.name
+
+/-- value sets built by the model of `NewFunc` satisfy the condition of `LowerNames`: `fieldLabel` sets a
+label's name to `""` or to `lower …`, and `lower` is idempotent (`C16.lower_idem`) -/
+theorem newFunc_lowerNames (ins outs : List Param) (fs : FuncSig) (h : newFunc ins outs = .ok fs) :
+    ∀ l ∈ fs.input.labels ++ fs.output.labels, lower l.name = l.name := by
+  intro l hl
+  rcases List.mem_append.1 hl with hl | hl
+  · exact (RedefC.newFunc_setLower h).1 l hl
+  · exact (RedefC.newFunc_setLower h).2 l hl
 
 /-- **C08_callable (graph level)** (corrected statement: hypotheses `hnames` and `hlow` added, see below) -/
 theorem callable_graph (e : TypeEnv) (ht : ImplTrans e)
